@@ -201,6 +201,15 @@ class World(object):
                     env.pop(k, None)
                 else:
                     env[k] = state
+        # explicit overrides (environment-lookup flips): applied last, raw values, None = unset;
+        # the token '$DIR' stands for the directory this world would normally put there
+        for k, v in (inv.get('env_extra') or {}).items():
+            if v is None:
+                env.pop(k, None)
+            elif v == '$DIR':
+                env[k] = dirs.get(k, os.path.join(self.root, 'some-dir'))
+            else:
+                env[k] = v
         return env
 
     def _reset_process(self, j):
@@ -257,9 +266,21 @@ class World(object):
         return [inject.code_key(getattr(self._window, e).__code__)]
 
     # -- one execution of invocation j from the current rw state ---------------
-    def execute(self, j, fault=None, keep_events=False):
+    def execute(self, j, fault=None, keep_events=False, env_extra=None):
         """-> dict(outcome, diff, monitor).  `fault` is an inject.Fault or None."""
-        self._reset_process(j)
+        saved_extra = self.invs[j].get('env_extra')
+        if env_extra is not None:
+            merged = dict(saved_extra or {})
+            merged.update(env_extra)
+            self.invs[j]['env_extra'] = merged
+        try:
+            self._reset_process(j)
+        finally:
+            if env_extra is not None:
+                if saved_extra is None:
+                    self.invs[j].pop('env_extra', None)
+                else:
+                    self.invs[j]['env_extra'] = saved_extra
         fn = self.callable_for(j)
         with warnings.catch_warnings():
             warnings.simplefilter('ignore')
